@@ -319,6 +319,38 @@ def call_builtin(ex, st, ctx, name, args, kwargs, node):
         return VBool(z3.Function("u_fnmatch", S, S, B)(sval(args[0]), sval(args[1])))
     if name == "traceback.format_exc":
         return VStr(fresh("tb", S))
+    # ---- datetime (assumed contracts, A2): naive datetimes carry u_naive (seconds since the epoch of the
+    # calendar fields, a function of the parsed text), timedeltas carry seconds, aware datetimes a timestamp
+    if name == "datetime.datetime.strptime":
+        ex.trusted.add("datetime.strptime: returns the naive calendar fields NAIVE(text) of a text in the format, "
+                       "raises ValueError otherwise (A2)")
+        ex.raise_if(st, ctx, z3.Not(z3.And(is_Str(args[0]), is_Str(args[1]))), "TypeError", node=node)
+        bad = fresh("strptime_raises", B)
+        ex.raise_if(st, ctx, bad, "ValueError", node=node)
+        o = fresh("naive_dt", I)
+        ex.assume(st, z3.Function("u_naive_of", I, R)(o) == z3.Function("u_naive_text", S, S, R)(sval(args[0]), sval(args[1])))
+        return VOpq(o)
+    if name == "datetime.timedelta":
+        ex.trusted.add("datetime.timedelta(hours=, minutes=, seconds=): total seconds (A2)")
+        tot = z3.RealVal(0)
+        for k, mult in (("days", 86400), ("hours", 3600), ("minutes", 60), ("seconds", 1)):
+            if k in kwargs:
+                ex.raise_if(st, ctx, z3.Not(is_number(kwargs[k])), "TypeError", node=node)
+                tot = tot + as_real(kwargs[k]) * mult
+        if args or any(k not in ("days", "hours", "minutes", "seconds") for k in kwargs):
+            ex.unsupported(st, ctx, "timedelta positional / other units", node)
+            return VNone
+        o = fresh("timedelta", I)
+        ex.assume(st, z3.Function("u_td_seconds", I, R)(o) == tot)
+        return VOpq(o)
+    if name == "datetime.timezone":
+        ex.trusted.add("datetime.timezone(delta): fixed offset; ValueError unless strictly between -24h and 24h (A2)")
+        ex.raise_if(st, ctx, z3.Not(is_Opq(args[0])), "TypeError", node=node)
+        secs = z3.Function("u_td_seconds", I, R)(oid(args[0]))
+        ex.raise_if(st, ctx, z3.Not(z3.And(secs > -86400, secs < 86400)), "ValueError", node=node)
+        o = fresh("tz", I)
+        ex.assume(st, z3.Function("u_tz_offset", I, R)(o) == secs)
+        return VOpq(o)
     if name in ("super", "open", "iter", "next", "zip", "sum", "map", "filter", "getattr", "round"):
         ex.unsupported(st, ctx, "builtin " + name, node)
         return VNone
@@ -484,6 +516,9 @@ def spec_func(ex, st, ctx, name, args, node):
         return VBool(is_Bool(args[0]))
     if name == "isfloat":
         return VBool(is_Float(args[0]))
+    if name == "NAIVE":
+        # seconds denoted by the calendar fields of a "%Y-%m-%dT%H:%M:%S.%f" text (what strptime parses, A2)
+        return VFloat(z3.Function("u_naive_text", S, S, R)(sval(args[0]), sv("%Y-%m-%dT%H:%M:%S.%f")))
     if name == "istrue":
         # Python truthiness, taken in the state the expression is evaluated in (inside old(): the entry heap)
         return VBool(ex.truth(args[0], st))
